@@ -17,6 +17,7 @@ func CompileToGetDecoder(typ *runtime.Type) (Decoder, error) {
 	}
 
 	index := (typeptr - typeAddr.BaseTypeAddr) >> typeAddr.AddrShift
+	VerifDecoderSlot(index, typeptr)
 	if dec := cachedDecoder[index]; dec != nil {
 		return dec, nil
 	}
